@@ -52,6 +52,11 @@ NA = {
 
 # id -> (category, text, note, technique, design_ref)
 CLAIMED = {
+ "C32": ("exploration",
+         "Real OS threads interning atoms through the real AtomTable/arcu code, with exactly one thread runnable at a time: a baton-passing scheduler parks every thread at 11 yield sites hooked into AtomTable::build_with / Atom::as_ptr / AtomTable::new and picks the next one from the case's explicit choice list (uniform random) or PCT priorities; the table starts with a 64..4096-byte block so that growth and both RCU replaces happen repeatedly. Oracle after every operation and at the end: text<->atom is a bijection over everything any thread obtained, every atom reads back the text it was interned with (immediately, later from other threads, and at the end), one table for all threads, no panic, no deadlock, all threads finish within the step budget. Seeded sampling of schedules; the schedule of a failure is stored as data and replays exactly.",
+         "Interleavings are explored at the hooked yield sites under sequential consistency; weak-memory effects and preemption inside arcu are not modelled. shuttle/loom are unsuitable here (arcu's thread_local epoch counters).",
+         "deterministic simulation: seeded/PCT thread schedules over real threads serialised by a baton scheduler at hooked yield points; bijection + text-stability history oracle",
+         "DESIGN.md §3 C32"),
  "C40": ("fault_enumeration",
          "call_with_inference_limit/3 is the system's own preemption timer over its logical inference clock; the limit L is swept over every value from 0 to the goal's completion threshold + 5 (cap 160), i.e. the timer fires at every inference of the goal, for 29 library goals and seeded compositions (conjunction, disjunction, negation, if-then-else, nested limits). Answers and R values are observed through the query iterator. Relations checked: determinism (ascending sweep on one machine vs shuffled sweep on a second machine with a different history), faithfulness (solutions are a prefix of the goal's own solutions; R in {true, !, inference_limit_exceeded}; ! and inference_limit_exceeded only last; no inference_limit_exceeded => all solutions; exceptions pass through), monotonicity in L, constant nesting overhead over an (a,m) grid, fresh-machine follow-up afterwards.",
          "Only implementation-independent relations are asserted (no absolute inference counts). For goals that themselves contain an inner limit, only determinism and result-shape are asserted (the documentation says only the last limit is in power). Goals needing more than 160 inferences are checked up to the cap.",
